@@ -15,6 +15,12 @@ pub struct Case {
     pub m: u32,
     pub l: usize,
     pub wy: bool,
+    /// 0: FNV / WyHash over arbitrary labels; 1..3: the crate's no-op hasher over structured hash values
+    /// (1: 0,1,2,...  2: values sharing their low 32 bits  3: neighbours base ^ i of a generated base)
+    #[serde(default)]
+    pub family: u8,
+    #[serde(default)]
+    pub base: u64,
     pub seq: Vec<u8>,
     /// sort keys defining the permutation (stable sort; cycled)
     pub perm: Vec<u16>,
@@ -23,14 +29,22 @@ pub struct Case {
 }
 
 fn strategy(max_len: usize, max_l: usize) -> impl Strategy<Value = Case> {
-    (prop_oneof![Just(1u32), Just(2u32), 1u32..20, prop::sample::select(vec![32u32, 64, 128])], 1usize..=max_l, any::<bool>(), 1u8..10).prop_flat_map(move |(m, l, wy, alpha)| {
+    (prop_oneof![Just(1u32), Just(2u32), 1u32..20, prop::sample::select(vec![32u32, 64, 128])], 1usize..=max_l, any::<bool>(), 1u8..10, prop_oneof![3 => Just(0u8), 1 => 1u8..4], any::<u64>()).prop_flat_map(move |(m, l, wy, alpha, family, base)| {
         let seq = move |lo: usize, hi: usize| prop::collection::vec(0u8..alpha, lo..=hi);
-        (seq(l, max_len.max(l)), prop::collection::vec(any::<u16>(), 1..=max_len), prop::collection::vec(seq(l, l + 8), 0..3)).prop_map(move |(s, perm, history)| Case { m, l, wy, seq: s, perm, history })
+        (seq(l, max_len.max(l)), prop::collection::vec(any::<u16>(), 1..=max_len), prop::collection::vec(seq(l, l + 8), 0..3)).prop_map(move |(s, perm, history)| Case { m, l, wy, family, base, seq: s, perm, history })
     })
 }
 
-fn label(x: u8) -> u64 {
-    0x5EED_0000 + x as u64
+/// the u64 item standing for symbol x. For the no-op hasher families the wanted HASH value is chosen and the item is its
+/// byte-swapped form (the no-op hasher reads the native-endian bytes as a big-endian number)
+fn label(c: &Case, x: u8) -> u64 {
+    let x = x as u64;
+    match c.family {
+        0 => 0x5EED_0000 + x,
+        1 => x.swap_bytes(),
+        2 => ((c.base & 0xFFFF_FFFF) | (x << 32) | (x << 48)).swap_bytes(),
+        _ => (c.base ^ x).swap_bytes(),
+    }
 }
 
 fn permuted(c: &Case) -> Vec<u8> {
@@ -46,7 +60,7 @@ fn pair_at(seq: &[u8], i: usize) -> (u8, usize) {
 
 fn run_h<H: Hasher + Default>(c: &Case) -> Eval {
     let (m, l) = (c.m as usize, c.l);
-    let lab = |s: &[u8]| s.iter().map(|x| label(*x)).collect::<Vec<u64>>();
+    let lab = |s: &[u8]| s.iter().map(|x| label(c, *x)).collect::<Vec<u64>>();
     let mut s = ProbOrdMinHash2::<H>::new(c.m, l);
     for h in &c.history {
         let _ = s.hash_set(&lab(h));
@@ -115,6 +129,15 @@ fn run_h<H: Hasher + Default>(c: &Case) -> Eval {
         }
         full_dict_checked = true;
     }
+    // different words of l elements must have different combined hashes (a 64-bit hash: a coincidence has probability 2^-64)
+    {
+        let mut by_value: HashMap<u64, &Vec<u8>> = HashMap::new();
+        for (word, v) in dict.iter() {
+            if let Some(other) = by_value.insert(*v, word) {
+                ensure!(other == word, "the l-element sequences {:?} and {:?} spell different words but have the same combined hash {:#x}", other, word, v);
+            }
+        }
+    }
     // (ii) permutation: same (element, occurrence) pairs selected at every position
     let pseq = permuted(c);
     let psig = s.hash_set(&lab(&pseq));
@@ -134,11 +157,14 @@ fn run_h<H: Hasher + Default>(c: &Case) -> Eval {
         .class_if(!c.history.is_empty(), "earlier-calls-on-instance")
         .class_if(full_dict_checked, "full-subsequence-dictionary")
         .class_if(m == 1, "m=1")
+        .class_if(c.family > 0, "no-op-hasher-structured-hash-values")
         .class_if(m > n, "m>n"))
 }
 
 pub fn eval(c: &Case) -> Eval {
-    if c.wy {
+    if c.family > 0 {
+        run_h::<probminhash::nohasher::NoHashHasher>(c)
+    } else if c.wy {
         run_h::<WyHash>(c)
     } else {
         run_h::<FnvHasher>(c)
